@@ -28,7 +28,20 @@ namespace rkcommon {
           fcn(taskIndex);
         }
 #elif defined(RKCOMMON_TASKING_INTERNAL)
-        detail::parallel_for_internal(nTasks, std::forward<TASK_T>(fcn));
+        // NOTE - the internal task system counts the tasks of a set in 32 bits
+        //        (parallel_for_internal() takes an int): run nothing for
+        //        nTasks <= 0 and split larger counts into sets which fit
+        if (nTasks > 0) {
+          const unsigned long long total    = nTasks;
+          const unsigned long long maxChunk = 0x7fffffffull;
+          for (unsigned long long first = 0; first < total;) {
+            const unsigned long long left = total - first;
+            const int chunk = int(left < maxChunk ? left : maxChunk);
+            detail::parallel_for_internal(
+                chunk, [&](unsigned i) { fcn(INDEX_T(first + i)); });
+            first += chunk;
+          }
+        }
 #else // Debug (no tasking system)
         for (INDEX_T taskIndex = 0; taskIndex < nTasks; ++taskIndex) {
           fcn(taskIndex);
